@@ -1135,15 +1135,38 @@ def status_loc(reap, v=None):
     raise AnalysisBroken('reap call at %s: the status is received neither in a local variable nor in a field' % reap.get('loc'))
 
 
-def key_nodes(g):
-    """comparison nodes of g in which exactly one operand is an interest's pid:
-    [(node, sought operand, 'l'|'r' side of the sought operand)]"""
+def pid_source(v, x, depth=4):
+    """The interest whose pid the operand x denotes: the base of `X->pid`, also when x is a local all of
+    whose definitions cache that same field (`pid_a = container_of(..)->pid; ... pid_a < pid_b`); None when
+    x is not (known to be) the pid of an interest.  v: View (None: only the direct spelling)."""
+    if last_member(x) == PID:
+        m = strip(x)
+        while isinstance(m, dict) and m.get('k') != 'member' and 'e' in m:
+            m = strip(m['e'])
+        return m.get('base') if isinstance(m, dict) and m.get('k') == 'member' else None
+    s = strip(x)
+    if isinstance(s, dict) and s.get('k') == 'load':
+        s = strip(s['e'])
+    if v is None or depth <= 0 or not (isinstance(s, dict) and s.get('k') == 'var' and s.get('vk') == 'local'):
+        return None
+    ds = v.defs.get(s['name'], [])
+    if not ds or any(d.get('op') != '=' or 'rhs' not in d for d in ds):
+        return None
+    srcs = [pid_source(v, d['rhs'], depth - 1) for d in ds]
+    if any(b is None for b in srcs) or len({canon(b) for b in srcs}) != 1:
+        return None
+    return srcs[0]
+
+
+def key_nodes(g, v=None):
+    """comparison nodes of g in which exactly one operand is an interest's pid (read from the interest or from
+    a local that caches it): [(node, sought operand, 'l'|'r' side of the sought operand)]"""
     out, seen = [], set()
 
     def visit(x):
         for n in walk(x):
             if n.get('k') == 'bin' and n.get('op') in CMPOPS + ('-',) and id(n) not in seen:
-                lp, rp = last_member(n['l']) == PID, last_member(n['r']) == PID
+                lp, rp = pid_source(v, n['l']) is not None, pid_source(v, n['r']) is not None
                 if lp != rp:
                     seen.add(id(n))
                     out.append((n, n['r'] if lp else n['l'], 'r' if lp else 'l'))
@@ -1157,11 +1180,11 @@ def key_nodes(g):
     return out
 
 
-def key_assignment(g, o):
+def key_assignment(g, o, v=None):
     """interp.Assignment deciding every pid comparison as (sought pid) o (node pid), o in '<=>'"""
     orders, ints = {}, {}
     sg = {'<': -1, '=': 0, '>': 1}
-    for (n, sought, side) in key_nodes(g):
+    for (n, sought, side) in key_nodes(g, v):
         if n['op'] == '-':
             ints[canon(n)] = sg[o] if side == 'l' else -sg[o]      # the sign of `sought - node->pid` is their order
         else:
@@ -1179,7 +1202,7 @@ def reaper_scenario(v, reap, status, lock=None, order=None, whole=False):
     g = v.g
     sloc = status_loc(reap, v)
     skey = sloc[1] if sloc[0] == 'var' else sloc
-    asg = key_assignment(g, order) if order else interp.Assignment()
+    asg = key_assignment(g, order, v) if order else interp.Assignment()
     kset = set(asg.orders)
     dset = set(asg.ints)
 
